@@ -370,4 +370,6 @@ add("C28", "spherical mode lengths transformed for the Matern model only", "nift
 add("C18", "KL samples drawn from the Hamiltonian reduced by the wrong key list", "nifty/cl/minimization/kl_energies.py", "    _, ham_sampling = _reduce_by_keys(position, hamiltonian, point_estimates)", "    _, ham_sampling = _reduce_by_keys(position, hamiltonian, invariant)", "R18.7")
 add("C18", "geoVI prior noise with a literal dtype", "nifty/cl/minimization/kl_energies.py", "                              ScalingOperator(fl.domain, 1., prior_dtype),", "                              ScalingOperator(fl.domain, 1., float),", "R18.8")
 add("C18", "likelihood white noise straight from random_like", "nifty/re/evi.py", "    white_sample = _white_noise_like(key, lh.left_sqrt_metric_tangents_shape)", "    white_sample = random_like(key, lh.left_sqrt_metric_tangents_shape)", "R18.11")
+add("C29", "sigma outside the time-axis expansion", "nifty/re/gauss_markov.py", "    res = (sigma * jnp.sqrt(dt))[:, jnp.newaxis] * xi", "    res = sigma * jnp.sqrt(dt)[:, jnp.newaxis] * xi", "R29.6")
+add("C05", "chain grouping key from the first operator alone", "nifty/cl/operator_tree_optimiser.py", "                        write_to_dic(leaf, leaf_op_id)", "                        write_to_dic(leaf, str(id(i)))", "R05.4")
 VARIANTS = V
